@@ -462,4 +462,24 @@ theorem C18_code_get_value (tbl : List Row) (x : Rat) :
         simp [he, hi, hg, List.getElem?_eq_getElem hlt']
 
 
+open Atsim.Gen.Logic in
+theorem plot_loop_eq (f : FnRec) (hi lo step : Rat) (n : Int) (xs : List Int) (out : List Tok) :
+    plot_to_file_loop1 out f hi lo step n xs =
+      out ++ xs.map fun i => Tok.mk "{} {}\n" [OV.num (lo + ((i : Int) : Rat) * step), OV.fn "value" f.fid (lo + ((i : Int) : Rat) * step)] := by
+  induction xs generalizing out with
+  | nil => simp [plot_to_file_loop1]
+  | cons x xs ih => simp [plot_to_file_loop1, ih, evalFnOV]
+
+open Atsim.Gen.Logic in
+/-- **code tie**: `plotToFile` as regenerated writes exactly `steps` rows `x f(x)` at the model's `plotXs` (the step is computed once, `x_i = lowx + i*step`),
+    each row in its own `write` call -/
+theorem C18_code_plot (out : List Tok) (lowx highx : Rat) (f : Nat) (steps : Nat) :
+    plot_to_file out lowx highx ⟨f⟩ (steps : Int) =
+      out ++ (plotXs lowx highx steps).map fun x => Tok.mk "{} {}\n" [OV.num x, OV.fn "value" f x] := by
+  have hr : intRange (0 : Int) (steps : Int) = (List.range steps).map fun (k : Nat) => (k : Int) := by
+    simp [intRange]
+  simp only [plot_to_file, plot_loop_eq, hr, plotXs, List.map_map]
+  congr 1
+
+
 end Atsim.C18
